@@ -50,6 +50,22 @@ class ExcValue:
     return 'ExcValue(%s)' % self.names[0]
 
 
+class RepoFunc:
+  """a function of the repository used as a value (passed as an argument)"""
+
+  def __init__(self, g):
+    self.g = g
+
+  def __repr__(self):
+    return 'RepoFunc(%s)' % self.g.key
+
+  def __eq__(self, o):
+    return isinstance(o, RepoFunc) and o.g.key == self.g.key
+
+  def __hash__(self):
+    return hash(self.g.key)
+
+
 class Closure:
   """a function defined inside the interpreted function"""
 
@@ -538,6 +554,11 @@ class Interp:
       if e.id in self._locals():
         raise Raised(['UnboundLocalError', 'NameError'], e)
       r = self.world.name(self, e.id)
+      if r is NotImplemented:
+        d_ = self.repo.dotted(self.func.module, e)
+        g_ = self.repo.func_by_dotted(d_) if d_ else None
+        if g_ is not None and g_.cls is None:
+          return RepoFunc(g_)
       if r is NotImplemented and \
               e.id in getattr(self.func.module, 'const_exprs', {}):
         # a module-level constant: evaluate its defining expression
@@ -800,6 +821,12 @@ class Interp:
       callee = self.env[f.id]
       if isinstance(callee, Closure):
         return self.call_closure(callee, args, kwargs, e)
+      if isinstance(callee, RepoFunc):
+        r = self.world.call(self, callee.g.module.name + '.' +
+                            callee.g.name, None, args, kwargs, e)
+        if r is not NotImplemented:
+          return r
+        return self.invoke(callee.g, args, kwargs, e)
       r = self.world.call(self, '()', callee, args, kwargs, e)
       if r is not NotImplemented:
         return r
